@@ -8,10 +8,43 @@ def cls_by_name():
             "OrderedMultiDict": c.OrderedMultiDict}
 
 
+def leaf(s):
+    """atoms beginning with '@' stand for the non-string leaves a loader produces"""
+    import datetime, decimal
+    import pvl.collections as c, pvl.parser as P
+    if s == "@empty":
+        return P.EmptyValueAtLine(3)
+    if s == "@qty":
+        return c.Quantity(5, "m")
+    if s == "@dt":
+        return datetime.datetime(2001, 1, 1, 12, 0, tzinfo=datetime.timezone.utc)
+    if s == "@dec":
+        return decimal.Decimal("1.5")
+    if s == "@int":
+        return 7
+    if s == "@set":
+        return frozenset(["a", 1])
+    return s
+
+
+def leaf_name(obj):
+    import pvl.parser as P
+    for name in ("@empty", "@qty", "@dt", "@dec", "@int", "@set"):
+        ref = leaf(name)
+        if type(obj) is type(ref) and obj == ref and (name != "@empty" or getattr(obj, "lineno", None) == 3):
+            return name
+    return None
+
+
 def build(tree, classes=None):
+    import pvl.collections as c
     classes = classes or cls_by_name()
     if tree["cls"] == "atom":
-        return tree["s"]
+        return leaf(tree["s"])
+    if tree["cls"] == "list":
+        return [build(sub, classes) for _, sub in tree["items"]]
+    if tree["cls"] == "qtylist":
+        return c.Quantity([build(sub, classes) for _, sub in tree["items"]], "m")
     m = classes[tree["cls"]]()
     for k, sub in tree["items"]:
         m.append(k, build(sub, classes))
@@ -21,8 +54,14 @@ def build(tree, classes=None):
 def project(obj, depth=0):
     """Tree projection through the public API only (iteration, type)."""
     import pvl.collections as c
-    if isinstance(obj, str):
+    if type(obj) is str:
         return {"cls": "atom", "s": obj, "items": []}
+    if leaf_name(obj):
+        return {"cls": "atom", "s": leaf_name(obj), "items": []}
+    if type(obj) is list:
+        return {"cls": "list", "s": "", "items": [["", project(v, depth + 1)] for v in obj]}
+    if type(obj) is c.Quantity and type(obj.value) is list and obj.units == "m":
+        return {"cls": "qtylist", "s": "", "items": [["", project(v, depth + 1)] for v in obj.value]}
     if isinstance(obj, c.OrderedMultiDict) and depth < 8:
         try:
             items = [[k if isinstance(k, str) else "!" + repr(k), project(v, depth + 1)] for k, v in list(obj)]
@@ -61,6 +100,19 @@ def mutate(m, o):
     with warnings.catch_warnings():
         warnings.simplefilter("ignore")
         op, k, v = o["op"], o["k"], o["v"]
+        import pvl.collections as c
+        if type(m) is c.Quantity:
+            m = m.value
+        if type(m) is list:
+            if op == "append":
+                m.append(v)
+            elif op == "pop":
+                m.pop()
+            elif op == "clear":
+                m.clear()
+            else:
+                raise AssertionError(op)
+            return
         if op == "append":
             m.append(k, v)
         elif op == "setitem":
